@@ -84,6 +84,9 @@ def tag_sites(m: str, nl: str) -> list[tuple[str, str]]:
     s.append(("tr-arg", "{% translate you: g" + nl + " %}" + m + " {{ you }}{% endtranslate %}"))
     s.append(("tr-empty-ctx", "{% translate context: ''" + nl + " %}" + m + "{% endtranslate %}"))
     s.append(("tr-empty-ctx-plural", "{% translate context: ''," + nl + " count: 2 %}" + m + "{% plural %}" + m + "s{% endtranslate %}"))
+    for cx in ("42", "0", "true", "false", "1.5", "nil"):
+        s.append((f"tr-literal-ctx-{cx}", "{% translate context: " + cx + nl + " %}" + m + "{% endtranslate %}"))
+        s.append((f"tr-literal-ctx-plural-{cx}", "{% translate context: " + cx + "," + nl + " count: 2 %}" + m + "{% plural %}" + m + "s{% endtranslate %}"))
     for c in COUNTS:
         cnt = (" count: " + c) if c else ""
         s.append((f"tr-plural-{c}", "{% translate" + nl + cnt + " %}" + m + "{% plural %}" + m + "s{% endtranslate %}"))
@@ -111,6 +114,11 @@ def expr_sites(m: str) -> list[tuple[str, str]]:
         ("pgettext-kw-first", q + " | pgettext: you: g, 'ctx" + m + "'"),
         ("npgettext-kw-between", q + " | npgettext: 'ctx" + m + "', you: g, '" + m + "s', 2"),
         ("pgettext-empty-ctx", q + " | pgettext: ''"),
+    ]
+    # a message context (or plural) that is a literal number or Boolean: looked up by its string form
+    s += [
+        ("t-int-ctx", q + " | t: 42"), ("t-true-ctx", q + " | t: true"), ("t-float-ctx", q + " | t: 1.5"), ("t-false-ctx", q + " | t: false"), ("t-zero-ctx", q + " | t: 0"), ("t-nil-ctx", q + " | t: nil"),
+        ("pgettext-int-ctx", q + " | pgettext: 3"), ("npgettext-false-ctx", q + " | npgettext: false, '" + m + "s', 2"), ("t-int-plural", q + " | t: plural: 7, count: 2"), ("ngettext-int-plural", q + " | ngettext: 7, 2"),
     ]
     # unfinished calls: fewer positional arguments than the function needs, padded with message variables (such a call
     # makes no catalog lookup; the rest of the template's messages must still be extracted)
@@ -166,6 +174,13 @@ def site_markups(m: str, tier: str) -> list[tuple[str, str, dict[str, str]]]:
             if not nl:
                 out.append((label + "@if", "{% if g %}" + src + "{% endif %}", {}))
                 out.append((label + "@partial", "{% include 'part' %}", {"part": "\n\n" + src}))
+    # the message is a literal BRANCH of an inline condition and the translating filter is the first tail filter
+    q = "'" + m + "'"
+    for label, src in (
+        ("t@tail-left", "{{ " + q + " if g || t }}"), ("t@tail-alt", "{{ 'no' if h else " + q + " || t: 'ctx" + m + "' }}"), ("gettext@tail-left-echo", "{% echo " + q + " if g else 'other' || gettext | upcase %}"),
+        ("t-plural@tail-assign", "{% assign zz = " + q + " if g else 'other' || t: plural: '" + m + "s', count: 2 %}{{ zz }}"), ("t@tail-filtered-branch", "{{ " + q + " | upcase if g else " + q + " || t }}"),
+    ):
+        out.append((label, src, {}))
     for elabel, e in expr_sites(m):
         for nl in ("", "\n"):
             for plabel, src in placements(e, nl):
